@@ -119,7 +119,7 @@ func mutLocus(l *Layout, muts []Mut) string {
 			out = append(out, f[i])
 		}
 		return "field:" + string(out)
-	case "garbage", "append":
+	case "garbage", "append", "grow":
 		return m.Kind
 	default:
 		r, _ := l.Region(m.Off)
@@ -263,6 +263,12 @@ func c13Mutations(l *Layout, r *Rng, thorough bool) [][]Mut {
 					out = append(out, []Mut{{Kind: "field", Field: f.Name, Val: uint64(int64(cur) + d)}})
 				}
 			}
+		}
+	}
+	// extra bytes inside a block, container otherwise consistent: every section, one and a few bytes
+	for i := range l.Payload.Sections {
+		for _, k := range []int{1, 5} {
+			out = append(out, []Mut{{Kind: "grow", Off: int64(i), Len: k, Val: uint64(7 + i)}})
 		}
 	}
 	n := int64(len(l.Image))
